@@ -1,6 +1,6 @@
 SPECIFICATION Spec
 CONSTANTS
-  MaxSlot = 4
+  MaxSlot = 3
   MaxVer = 2
   MaxReorgs = 2
   MaxCrashes = 0
